@@ -13,3 +13,4 @@ import Helm.Props.C10
 #print axioms Helm.Props.C10.mem_create_get
 #print axioms Helm.Props.C10.memory_step
 #print axioms Helm.Props.C10.memory_refines_map
+#print axioms Helm.Props.C10.storage_keys_meet_guard
